@@ -85,25 +85,32 @@ func H_C09_shared_code() {
 	verifAssert(got == want, "a shared statement renders in the second File exactly as a freshly built one does")
 }
 
-// a File with two references that may collide on their base name, rendered between two renders of a
-// File that uses only the second reference
+// a File with two references that may collide on their base name is rendered first; a second File
+// that uses only one of the paths must then get exactly what it gets in a fresh process: for a single,
+// unhinted, non-standard import that is the guessed alias (made unique against reserved words only)
 func H_C09_history_collisions() {
-	impSummaries()
 	canonicalMapOrder()
+	impSummaries()
 	p, q := leadPath(0), leadPath(1)
-	small := func() string {
-		f := NewFile("y")
-		f.NoFormat = true
-		f.Add(Qual(q, "B"))
-		out, _ := c08fileRaw(f)
-		return out
-	}
-	first := small()
 	big := NewFile("x")
 	big.NoFormat = true
 	big.Add(Qual(p, "A"))
 	big.Add(Qual(q, "B"))
+	if nondetBool("swap") {
+		big = NewFile("x")
+		big.NoFormat = true
+		big.Add(Qual(q, "B"))
+		big.Add(Qual(p, "A"))
+	}
 	c08fileRaw(big)
-	second := small()
-	verifAssert(first == second, "a File's import names do not depend on the Files rendered before it")
+	small := NewFile("y")
+	small.NoFormat = true
+	small.Add(Qual(q, "B"))
+	out, _ := c08fileRaw(small)
+	want := guessAlias(q)
+	if IsReservedWord(want) {
+		want += "1"
+	}
+	verifObserve("small", out)
+	verifAssert(out == "package y\n\nimport "+want+" "+specQuote(q)+"\n\n\n"+want+".B", "a File's import names do not depend on the Files rendered before it")
 }
